@@ -48,12 +48,14 @@ Theorem C08_query_nameserver_time : forall (o : oracle) a q rd s x s',
 Proof. exact query_nameserver_time. Qed.
 Print Assumptions C08_query_nameserver_time.
 
-(* the hypotheses are satisfiable and the bounds are met: a peer that never answers costs exactly 5 s *)
+(* the hypotheses are satisfiable and the bounds are met: a peer that never answers costs exactly the
+   time-out (5 s in the current source: the constants come from tools/tables.py); a reply arriving
+   exactly at the time-out is still seen, one millisecond later it is not *)
 Example C08_silent_peer_costs_5s :
-  udp_outcome {| t_bytes := None; t_delay_ms := 0; t_close := false; t_refuse := false |} = (5000, None)
-  /\ tcp_outcome {| t_bytes := None; t_delay_ms := 0; t_close := false; t_refuse := false |} = (5000, None)
-  /\ udp_outcome {| t_bytes := Some [1; 2]; t_delay_ms := 5000; t_close := true; t_refuse := false |} = (5000, Some [1; 2])
-  /\ udp_outcome {| t_bytes := Some [1; 2]; t_delay_ms := 5001; t_close := true; t_refuse := false |} = (5000, None).
+  udp_outcome {| t_bytes := None; t_delay_ms := 0; t_close := false; t_refuse := false |} = (UDP_TIMEOUT_MS, None)
+  /\ tcp_outcome {| t_bytes := None; t_delay_ms := 0; t_close := false; t_refuse := false |} = (TCP_TIMEOUT_MS, None)
+  /\ udp_outcome {| t_bytes := Some [1; 2]; t_delay_ms := UDP_TIMEOUT_MS; t_close := true; t_refuse := false |} = (UDP_TIMEOUT_MS, Some [1; 2])
+  /\ udp_outcome {| t_bytes := Some [1; 2]; t_delay_ms := UDP_TIMEOUT_MS + 1; t_close := true; t_refuse := false |} = (UDP_TIMEOUT_MS, None).
 Proof. vm_compute. repeat split. Qed.
 
 (* ====================================================================== *)
